@@ -1318,6 +1318,9 @@ class Project:
                 # Check if state point and id correspond.
                 correct_id = calc_id(statepoint)
                 if correct_id != job_id:
+                    # The (unvalidated) state point does not belong to this id and
+                    # must not remain in the cache under it.
+                    self._sp_cache.pop(job_id, None)
                     logger.warning(
                         "The job id of job '{}' is incorrect; "
                         "it should be '{}'.".format(job_id, correct_id)
